@@ -9,6 +9,7 @@ import (
 	"os"
 	"os/exec"
 	"path/filepath"
+	"runtime"
 	"strings"
 	"sync"
 	"time"
@@ -101,6 +102,27 @@ func runSolver(ctx context.Context, r solverRun) (string, string) {
 }
 
 // discharge decides one obligation with the portfolio.
+// procSem bounds the number of solver processes running at once (one per core): the portfolio
+// must not slow itself down by oversubscribing the machine.
+var procSem = make(chan struct{}, runtime.NumCPU())
+
+// runSolverSlot waits for a free core, then runs the solver with its own time budget (the
+// budget starts when the process starts, not while it queues). cancel aborts a queued or
+// running solver whose answer is no longer needed.
+func runSolverSlot(cancel context.Context, budget time.Duration, r solverRun) (string, string) {
+	select {
+	case procSem <- struct{}{}:
+	case <-cancel.Done():
+		return "timeout", ""
+	}
+	defer func() { <-procSem }()
+	ctx, stop := context.WithTimeout(cancel, budget+2*time.Second)
+	defer stop()
+	return runSolver(ctx, r)
+}
+
+// discharge decides one obligation with the portfolio: z3 5.1.0 first with half of the budget;
+// only if it does not decide, z3 4.8.12 and cvc5 share the other half.
 func discharge(o *Oblig, cfg *SolverCfg, idx int) {
 	start := time.Now()
 	file := filepath.Join(cfg.scratch, fmt.Sprintf("q%05d.smt2", idx))
@@ -109,36 +131,32 @@ func discharge(o *Oblig, cfg *SolverCfg, idx int) {
 		return
 	}
 	o.SMTFile = file
-	runs := solverCmds(file, cfg.quickTimeout, cfg.seed)
-	ctx, cancel := context.WithTimeout(context.Background(), cfg.quickTimeout+2*time.Second)
-	defer cancel()
 	type res struct {
 		solver, status, out string
 	}
-	// stage 1: z3-new alone for a short time
-	s1, cancel1 := context.WithTimeout(ctx, 3*time.Second)
-	st, out := runSolver(s1, runs[0])
-	cancel1()
-	final := res{runs[0].name, st, out}
 	if o.Kind == "cover" {
 		// vacuity probe: only a refutation (unsat) matters; do not spend the portfolio on it
+		runs := solverCmds(file, 3*time.Second, cfg.seed)
+		st, _ := runSolverSlot(context.Background(), 3*time.Second, runs[0])
 		o.Status, o.Solver, o.Millis = st, runs[0].name, time.Since(start).Milliseconds()
 		return
 	}
+	half := cfg.quickTimeout / 2
+	runs := solverCmds(file, half, cfg.seed)
+	st, out := runSolverSlot(context.Background(), half, runs[0])
+	final := res{runs[0].name, st, out}
 	if st != "sat" && st != "unsat" {
-		ch := make(chan res, 3)
-		c2, cancel2 := context.WithCancel(ctx)
-		for _, r := range runs {
+		ch := make(chan res, 2)
+		c2, cancel2 := context.WithCancel(context.Background())
+		for _, r := range runs[1:] {
 			r := r
 			go func() {
-				s, o := runSolver(c2, r)
+				s, o := runSolverSlot(c2, half, r)
 				ch <- res{r.name, s, o}
 			}()
 		}
-		got := 0
-		for got < 3 {
+		for got := 0; got < 2; got++ {
 			r := <-ch
-			got++
 			if r.status == "sat" || r.status == "unsat" {
 				final = r
 				break
@@ -161,7 +179,7 @@ func discharge(o *Oblig, cfg *SolverCfg, idx int) {
 
 func dischargeAll(obs []*Oblig, cfg *SolverCfg) {
 	var wg sync.WaitGroup
-	sem := make(chan struct{}, cfg.parallel)
+	sem := make(chan struct{}, 4*cfg.parallel)
 	for i, o := range obs {
 		wg.Add(1)
 		sem <- struct{}{}
